@@ -28,9 +28,13 @@ func (c WindowCase) source(clause string) string {
 	tail := ""
 	if c.Replace {
 		cmd = "replace"
-		tail = " with 'X' matchNumber"
+		// the built-in variable and a transform that reads matchNumber from its environment
+		tail = " with 'X' matchNumber wnumzz"
 	}
 	src := cmd + " " + clause + " " + c.Body + tail
+	if c.Replace {
+		src = "set wnumzz to transform return '#' + matchNumber * 3 end " + src
+	}
 	if c.Prefix != "" {
 		src = c.Prefix + " " + src
 	}
@@ -180,7 +184,7 @@ var repetitiveTexts = []string{"aaaa", "aaaaa", "ababab", "aabbaabb", "a1 a2 a3"
 func TestC04(t *testing.T) {
 	seedNote(t)
 	StartWatchdog("C04", 60*time.Second)
-	st := NewStats("C04", "windows", "(body, text) pairs from the C01 generator (plus overlap-capable bodies on repetitive texts) as find and as replace .. with 'X' matchNumber; every clause top/take/skip/skip-take/last with s,t,n in [0,|A|+2] compared field by field with the slice of `all`; non-trivial = |A|>=2 and a clause whose expected window is a proper non-empty part of A; distinct by (body,text,replace)")
+	st := NewStats("C04", "windows", "(body, text) pairs from the C01 generator (plus overlap-capable bodies on repetitive texts) as find and as replace .. with 'X' matchNumber and a transform reading matchNumber; every clause top/take/skip/skip-take/last with s,t,n in [0,|A|+2] compared field by field with the slice of `all`; non-trivial = |A|>=2 and a clause whose expected window is a proper non-empty part of A; distinct by (body,text,replace)")
 	defer st.Write()
 	_ = engine.NOTHING
 	rapid.Check(t, func(t *rapid.T) {
